@@ -483,6 +483,267 @@ theorem C08_ms_gain_fdd_ms (method : SdMethod) (hm : method ≠ .other) (hinv : 
 
 end preger_sd
 
+/-! ## C. `pLSCF_MS`: the normal equations on the merged array -/
+section plscf_ms
+open PV.Plscf
+
+section congr
+variable {K : Type} [Field K]
+
+/-- `So` reads `Syo` on the array only (`Nch > 0` channels, `Nf` lines) -/
+theorem So_congr (Nch Nf : Nat) (hN : 0 < Nch) (Om : Nat → Plscf.Cx K) (Syo Syo' : Nat → Nat → Plscf.Cx K)
+    (h : ∀ c, c < Nch → ∀ f, f < Nf → Syo' c f = Syo c f) (i J : Nat) :
+    So Nch Nf Om Syo' i J = So Nch Nf Om Syo i J := by
+  unfold So
+  apply sumTo_congr
+  intro f hf
+  simp only [Yo, h (J % Nch) (Nat.mod_lt J hN) f hf]
+
+theorem To_congr (Nch Nf : Nat) (hN : 0 < Nch) (Om : Nat → Plscf.Cx K) (Syo Syo' : Nat → Nat → Plscf.Cx K)
+    (h : ∀ c, c < Nch → ∀ f, f < Nf → Syo' c f = Syo c f) (I J : Nat) :
+    To Nch Nf Om Syo' I J = To Nch Nf Om Syo I J := by
+  unfold To
+  apply sumTo_congr
+  intro f hf
+  simp only [Yo, h (J % Nch) (Nat.mod_lt J hN) f hf, h (I % Nch) (Nat.mod_lt I hN) f hf]
+
+/-- the certificate of a returned order speaks about the spectra on the array only -/
+theorem OrderCert.congr {Nch Nref Nf n : Nat} {hi : Bool} {Om : Nat → Plscf.Cx K}
+    {Sy Sy' : Nat → Nat → Nat → Plscf.Cx K} {out : Plscf.OrderOut K} {X : Nat → Nat → Nat → K} {Z : Nat → Nat → K}
+    (hN : 0 < Nch) (h : OrderCert Nch Nref Nf n hi Om Sy out X Z)
+    (e : ∀ o, o < Nref → ∀ c, c < Nch → ∀ f, f < Nf → Sy' o c f = Sy o c f) :
+    OrderCert Nch Nref Nf n hi Om Sy' out X Z where
+  hX := by
+    intro o ho i hi' J hJ
+    rw [So_congr Nch Nf hN Om (Sy o) (Sy' o) (e o ho)]
+    exact h.hX o ho i hi' J hJ
+  hM := by
+    intro I hI J hJ
+    rw [h.hM I hI J hJ]
+    unfold Mmat
+    apply sumTo_congr
+    intro o ho
+    rw [To_congr Nch Nf hN Om (Sy o) (Sy' o) (e o ho)]
+    congr 1
+    apply sumTo_congr
+    intro t _
+    rw [So_congr Nch Nf hN Om (Sy o) (Sy' o) (e o ho)]
+  hZ := h.hZ
+  hbeta := by
+    intro o ho i hi' c hc
+    rw [h.hbeta o ho i hi' c hc]
+    apply sumTo_congr
+    intro J _
+    rw [So_congr Nch Nf hN Om (Sy o) (Sy' o) (e o ho)]
+
+end congr
+
+variable {K : Type} [Field K] [LinearOrder K] [IsStrictOrderedRing K] [Inhabited K]
+
+/-- **C08_gain_plscf_range — `C08_gain_plscf` with the gain relation required on the array only** (`Sy'` and
+    `c·Sy` agree for `o < Nref`, `ch < Nch`, `f < Nf`; outside the array nothing is assumed): same state
+    matrix, output matrix multiplied by `c`, identical column of `ac2mp_poly`. -/
+theorem C08_gain_plscf_range (Nch Nref Nf n : Nat) (hN : 0 < Nch) (hi : Bool) (Om : Nat → Plscf.Cx K)
+    (Sy Sy' : Nat → Nat → Nat → Plscf.Cx K) (out out' : Plscf.OrderOut K) (c : K) (hc : c ≠ 0)
+    (hS : ∀ o, o < Nref → ∀ ch, ch < Nch → ∀ f, f < Nf → Sy' o ch f = csm c (Sy o ch f))
+    (h : plscfOrder Nch Nref Nf n hi Om Sy = some out)
+    (h' : plscfOrder Nch Nref Nf n hi Om Sy' = some out')
+    (hRinj : ∀ y : Nat → K,
+      (∀ i < n + 1, ∑ t ∈ range (n + 1), Ro Nf Om i t * y t = 0) → ∀ t < n + 1, y t = 0)
+    (hinj : ∀ y : Nat → K,
+      (∀ I < n * Nch, ∑ J ∈ range (n * Nch),
+        (if hi then out.M I J else out.M (Nch + I) (Nch + J)) * y J = 0) → ∀ J < n * Nch, y J = 0)
+    (A C : Mat K) (hac : rmfd2ac (adOf Nch n out.alpha) (bnOf Nch Nref n out.beta) = some (A, C)) :
+    ∃ C', rmfd2ac (adOf Nch n out'.alpha) (bnOf Nch Nref n out'.beta) = some (A, C') ∧
+      (∀ i, i < Nref → ∀ j, j < (n + 1) * Nch → C'.e i j = c * C.e i j) ∧
+      ∀ (sqrt : K → K) (twoPi invdt : K) (cor : Bool) (invTau : K) (eigs : List (EigIn K)),
+        ac2mpPoly sqrt twoPi invdt cor invTau C' eigs = ac2mpPoly sqrt twoPi invdt cor invTau C eigs := by
+  obtain ⟨X, Z, cert⟩ := plscfOrder_sound Nch Nref Nf n hi Om Sy out h
+  obtain ⟨X', Z', cert'⟩ := plscfOrder_sound Nch Nref Nf n hi Om Sy' out' h'
+  have cert'' : OrderCert Nch Nref Nf n hi Om (fun o ch f => csm c (Sy o ch f)) out' X' Z' :=
+    OrderCert.congr hN cert' (fun o ho ch hch f hf => (hS o ho ch hch f hf).symm)
+  obtain ⟨_, hα, hβ⟩ := cert_gain_unique c hc cert cert'' hRinj hinj
+  obtain ⟨C', h1, hr, hcc, he⟩ := rmfd2ac_gain Nch Nref n out.alpha out'.alpha out.beta out'.beta c
+    hα hβ A C hac
+  have hCr : C.r = Nref ∧ C.c = (n + 1) * Nch := by
+    unfold rmfd2ac at hac
+    dsimp only at hac
+    split at hac
+    · exact absurd hac (by simp)
+    · injection hac with hac
+      injection hac with _ h2
+      rw [← h2]; exact ⟨rfl, rfl⟩
+  refine ⟨C', h1, he, ?_⟩
+  intro sqrt twoPi invdt cor invTau eigs
+  exact ac2mpPoly_gain sqrt twoPi invdt cor invTau C C' c hc hr hcc
+    (fun i hi' j hj => he i (hCr.1 ▸ hi') j (hCr.2 ▸ hj)) eigs
+
+open PV.C04C13 in
+/-- a spectral value of C13's model read as a pair of the pLSCF model -/
+def toPx (z : CxS K) : Plscf.Cx K := ⟨z.re, z.im⟩
+
+open PV.C04C13 in
+/-- **C08_ms_gain_plscf_ms — `pLSCF_MS` under a common gain, from the per-setup records to the pole-table
+    column of one order.**  `pLSCF_MS.run` hands `Sy = SD_PreGER(Y)` (all sensors × references × lines) to
+    `pLSCF`: `Nref_pLSCF = Sy.shape[0]` (all sensors), `Nch_pLSCF = Sy.shape[1]` (references).  With every
+    record multiplied by `g ≠ 0` the merged array is `g²·Sy` on the array (`C08_ms_gain_sd`); if the model of
+    `pLSCF` returns for both arrays and C05's injectivity hypotheses hold: same state matrix, and for every
+    recorded eigen-decomposition the column of `ac2mp_poly` — `fn`, `xi`, unit-normalised shapes over all
+    sensors, `lam`, NaN pattern — is identical. -/
+theorem C08_ms_gain_plscf_ms (tb : C04C13.Tables K) {inv : Mat (CxS K) → Mat (CxS K)} {fs : K} {nxseg : Nat} {pov : K}
+    {nset : Nat} {Y : Nat → Setup K} (method : SdMethod) (hm : method ≠ .other) (hinv : InvContract inv)
+    (href : ∀ ii, ii < nset → (Y ii).ref.r = (Y 0).ref.r) (g : K) (hg : g ≠ 0)
+    (hG : ∀ k, k < nset → ∀ f, f < (sdPreGER (sdEst tb) inv fs nxseg pov method nset Y).S.n2 →
+      ∃ W, IsLeftInv W (refBlock (Y 0).ref.r (gyy (sdEst tb) fs nxseg pov method Y) k f))
+    (hN : 0 < (sdPreGER (sdEst tb) inv fs nxseg pov method nset Y).S.n1)
+    (n : Nat) (hi : Bool) (Om : Nat → Plscf.Cx K) (out out' : Plscf.OrderOut K)
+    (h : plscfOrder (sdPreGER (sdEst tb) inv fs nxseg pov method nset Y).S.n1
+      (sdPreGER (sdEst tb) inv fs nxseg pov method nset Y).S.n0
+      (sdPreGER (sdEst tb) inv fs nxseg pov method nset Y).S.n2 n hi Om
+      (fun o ch f => toPx ((sdPreGER (sdEst tb) inv fs nxseg pov method nset Y).S.e o ch f)) = some out)
+    (h' : plscfOrder (sdPreGER (sdEst tb) inv fs nxseg pov method nset (scaleAll g Y)).S.n1
+      (sdPreGER (sdEst tb) inv fs nxseg pov method nset (scaleAll g Y)).S.n0
+      (sdPreGER (sdEst tb) inv fs nxseg pov method nset (scaleAll g Y)).S.n2 n hi Om
+      (fun o ch f => toPx ((sdPreGER (sdEst tb) inv fs nxseg pov method nset (scaleAll g Y)).S.e o ch f))
+        = some out')
+    (hRinj : ∀ y : Nat → K,
+      (∀ i < n + 1, ∑ t ∈ range (n + 1),
+        Ro (sdPreGER (sdEst tb) inv fs nxseg pov method nset Y).S.n2 Om i t * y t = 0) → ∀ t < n + 1, y t = 0)
+    (hinj : ∀ y : Nat → K,
+      (∀ I < n * (sdPreGER (sdEst tb) inv fs nxseg pov method nset Y).S.n1,
+        ∑ J ∈ range (n * (sdPreGER (sdEst tb) inv fs nxseg pov method nset Y).S.n1),
+        (if hi then out.M I J else out.M ((sdPreGER (sdEst tb) inv fs nxseg pov method nset Y).S.n1 + I)
+          ((sdPreGER (sdEst tb) inv fs nxseg pov method nset Y).S.n1 + J)) * y J = 0) →
+      ∀ J < n * (sdPreGER (sdEst tb) inv fs nxseg pov method nset Y).S.n1, y J = 0)
+    (A C : Mat K)
+    (hac : rmfd2ac (adOf (sdPreGER (sdEst tb) inv fs nxseg pov method nset Y).S.n1 n out.alpha)
+      (bnOf (sdPreGER (sdEst tb) inv fs nxseg pov method nset Y).S.n1
+        (sdPreGER (sdEst tb) inv fs nxseg pov method nset Y).S.n0 n out.beta) = some (A, C)) :
+    ∃ C', rmfd2ac (adOf (sdPreGER (sdEst tb) inv fs nxseg pov method nset Y).S.n1 n out'.alpha)
+        (bnOf (sdPreGER (sdEst tb) inv fs nxseg pov method nset Y).S.n1
+          (sdPreGER (sdEst tb) inv fs nxseg pov method nset Y).S.n0 n out'.beta) = some (A, C') ∧
+      ∀ (sqrt : K → K) (twoPi invdt : K) (cor : Bool) (invTau : K) (eigs : List (EigIn K)),
+        ac2mpPoly sqrt twoPi invdt cor invTau C' eigs = ac2mpPoly sqrt twoPi invdt cor invTau C eigs := by
+  obtain ⟨_, h0, h1, h2, he⟩ := C08_ms_gain_sd tb (inv := inv) (fs := fs) (nxseg := nxseg) (pov := pov)
+    (n := nset) (Y := Y) method hm hinv href g hg hG
+  rw [h0, h1, h2] at h'
+  obtain ⟨C', hC', _, hcol⟩ := C08_gain_plscf_range _ _ _ n hN hi Om _ _ out out' (g * g)
+    (mul_ne_zero hg hg)
+    (fun o ho ch hch f hf => by
+      show toPx _ = csm (g * g) (toPx _)
+      rw [he o ch f ho hch hf]
+      simp only [toPx, csm, CxS.mul_re, CxS.mul_im, CxS.ofReal_re, CxS.ofReal_im]
+      congr 1 <;> ring)
+    h h' hRinj hinj A C hac
+  exact ⟨C', hC', hcol⟩
+
+end plscf_ms
+
+/-! ### Non-vacuity of part C -/
+section ex_plscf_ms
+open PV.C04 PV.C04C13 PV.Plscf PV.C05
+
+-- `C08_gain_plscf_range` on C05's instance (`Sy' = 4·Sy` everywhere)
+example : True := by
+  obtain ⟨out, out', A, C, h, h', hM, hac⟩ := ex_plscf_runs
+  have hinj : ∀ y : Nat → Rat, (∀ I < 1 * 1, ∑ J ∈ range (1 * 1),
+      (if false = true then out.M I J else out.M (1 + I) (1 + J)) * y J = 0) → ∀ J < 1 * 1, y J = 0 := by
+    intro y hy J hJ
+    have := hy 0 (by decide)
+    simp only [Nat.mul_one, Finset.sum_range_one, Bool.false_eq_true, if_false] at this
+    have hJ0 : J = 0 := by omega
+    subst hJ0
+    exact (mul_eq_zero.mp this).resolve_left hM
+  have := C08_gain_plscf_range 1 1 3 1 (by decide) false exOm exSy _ out out' 4 (by norm_num)
+    (fun _ _ _ _ _ _ => rfl) h h' ex_Ro_inj hinj A C hac
+  trivial
+
+/-- an inverse routine meeting `np.linalg.inv`'s contract that is evaluable on `1 × 1` blocks -/
+noncomputable def inv1 : Mat (CxS ℚ) → Mat (CxS ℚ) := fun G =>
+  if G.r = 1 ∧ G.c = 1 ∧ G.e 0 0 ≠ 0 then ⟨1, 1, fun _ _ => ⟨(G.e 0 0).re / ((G.e 0 0).re * (G.e 0 0).re
+      + (G.e 0 0).im * (G.e 0 0).im), -(G.e 0 0).im / ((G.e 0 0).re * (G.e 0 0).re + (G.e 0 0).im * (G.e 0 0).im)⟩⟩
+  else exInv G
+
+theorem inv1_contract : InvContract inv1 := by
+  intro G hsq hex
+  unfold inv1
+  split_ifs with h
+  · obtain ⟨hr, hc, h0⟩ := h
+    refine ⟨hc.symm, hr.symm, ?_⟩
+    intro i j hi hj
+    rw [hc] at hi hj
+    have hi0 : i = 0 := by omega
+    have hj0 : j = 0 := by omega
+    subst hi0 hj0
+    have hpos : (G.e 0 0).re * (G.e 0 0).re + (G.e 0 0).im * (G.e 0 0).im ≠ 0 :=
+      (C04C13.normSq_pos h0).ne'
+    simp only [Mat.mul, sumTo_eq, hr, Finset.sum_range_one, if_pos]
+    ext
+    · simp only [CxS.mul_re]; show _ = (1 : ℚ)
+      rw [div_mul_eq_mul_div, div_mul_eq_mul_div, ← sub_div, div_eq_one_iff_eq hpos]; ring
+    · simp only [CxS.mul_im]; show _ = (0 : ℚ)
+      rw [div_mul_eq_mul_div, div_mul_eq_mul_div, ← add_div, div_eq_zero_iff]; left; ring
+  · exact exInv_contract G hsq hex
+
+/-- the merged array of the two-setup cut of `Props/C04C13.lean` (3 sensors × 1 reference × 3 lines) as `pLSCF_MS`
+    sees it, and the one of the records multiplied by `−3` -/
+noncomputable def exSyM (Y : Nat → Setup ℚ) : Nat → Nat → Nat → Plscf.Cx ℚ := fun o ch f =>
+  toPx ((sdPreGER (sdEst exTb) inv1 1 4 (1/2) .per 2 Y).S.e o ch f)
+
+theorem ex_ms_plscf_runs :
+    ∃ out out' A C, plscfOrder 1 3 3 1 false exOm (exSyM C04C13.exYs) = some out ∧
+      plscfOrder 1 3 3 1 false exOm (exSyM (scaleAll (-3) C04C13.exYs)) = some out' ∧
+      out.M 1 1 ≠ 0 ∧
+      rmfd2ac (adOf 1 1 out.alpha) (bnOf 1 3 1 out.beta) = some (A, C) := by
+  have h1 : ((plscfOrder 1 3 3 1 false exOm (exSyM C04C13.exYs)).bind fun out =>
+      (rmfd2ac (adOf 1 1 out.alpha) (bnOf 1 3 1 out.beta)).map fun _ => decide (out.M 1 1 ≠ 0))
+        = some true := by decide +kernel
+  have h2 : (plscfOrder 1 3 3 1 false exOm (exSyM (scaleAll (-3) C04C13.exYs))).isSome = true := by decide +kernel
+  cases ho : plscfOrder 1 3 3 1 false exOm (exSyM C04C13.exYs) with
+  | none => rw [ho] at h1; simp at h1
+  | some out =>
+    rw [ho] at h1
+    simp only [Option.bind_some] at h1
+    cases hac : rmfd2ac (adOf 1 1 out.alpha) (bnOf 1 3 1 out.beta) with
+    | none => rw [hac] at h1; simp at h1
+    | some AC =>
+      rw [hac] at h1
+      simp only [Option.map_some, Option.some.injEq, decide_eq_true_eq] at h1
+      obtain ⟨out', ho'⟩ := Option.isSome_iff_exists.mp h2
+      exact ⟨out, out', AC.1, AC.2, rfl, ho', h1, hac⟩
+
+theorem exRefBlocks_per1 : ∀ k, k < 2 → ∀ f, f < 3 →
+    (refBlock 1 (gyy (sdEst exTb) 1 4 (1/2) .per C04C13.exYs) k f).e 0 0 ≠ 0 := by decide +kernel
+
+example : True := by
+  obtain ⟨out, out', A, C, h, h', hM, hac⟩ := ex_ms_plscf_runs
+  have hinj : ∀ y : Nat → Rat, (∀ I < 1 * 1, ∑ J ∈ range (1 * 1),
+      (if false = true then out.M I J else out.M (1 + I) (1 + J)) * y J = 0) → ∀ J < 1 * 1, y J = 0 := by
+    intro y hy J hJ
+    have := hy 0 (by decide)
+    simp only [Nat.mul_one, Finset.sum_range_one, Bool.false_eq_true, if_false] at this
+    have hJ0 : J = 0 := by omega
+    subst hJ0
+    exact (mul_eq_zero.mp this).resolve_left hM
+  have hn : (sdPreGER (sdEst exTb) inv1 1 4 (1/2) .per 2 C04C13.exYs).S.n0 = 3
+      ∧ (sdPreGER (sdEst exTb) inv1 1 4 (1/2) .per 2 C04C13.exYs).S.n1 = 1
+      ∧ (sdPreGER (sdEst exTb) inv1 1 4 (1/2) .per 2 C04C13.exYs).S.n2 = 3
+      ∧ (sdPreGER (sdEst exTb) inv1 1 4 (1/2) .per 2 (scaleAll (-3) C04C13.exYs)).S.n0 = 3
+      ∧ (sdPreGER (sdEst exTb) inv1 1 4 (1/2) .per 2 (scaleAll (-3) C04C13.exYs)).S.n1 = 1
+      ∧ (sdPreGER (sdEst exTb) inv1 1 4 (1/2) .per 2 (scaleAll (-3) C04C13.exYs)).S.n2 = 3 := by
+    decide +kernel
+  obtain ⟨e0, e1, e2, f0, f1, f2⟩ := hn
+  have T := C08_ms_gain_plscf_ms exTb (inv := inv1) (fs := 1) (nxseg := 4) (pov := 1/2) (nset := 2)
+    (Y := C04C13.exYs) .per (by decide) inv1_contract (fun _ _ => rfl) (-3) (by norm_num)
+    (fun k hk f hf => one_by_one _ (refBlock_r (Y := C04C13.exYs) (sdEst_shape exTb) (by decide) k f)
+      (refBlock_c (Y := C04C13.exYs) (sdEst_shape exTb) (by decide) k f)
+      (exRefBlocks_per1 k hk f (by rw [e2] at hf; exact hf)))
+  rw [e0, e1, e2, f0, f1, f2] at T
+  have := T (by decide) 1 false exOm out out' h h' ex_Ro_inj hinj A C hac
+  trivial
+
+end ex_plscf_ms
+
 /-! ### Non-vacuity of part B -/
 section ex_preger
 open PV.C04 PV.C04C13
